@@ -5,12 +5,14 @@
    independent; that a stamp newer than the job's last version in a checked component of a chunk makes the filter hand
    every entity position of that chunk to the job (through the global test as well, given the invariant gver_bounds that
    the stamping primitives establish); that the stamping primitives write the version they are given.
-   What is NOT proved here: the history-level statement (all interleavings of update(), job runs and accesses), which
-   needs in addition that the version handed to the stamping primitives is newer than the last version of every job that
-   ran before. C07_write_detected_iff shows that this is exactly what is needed: a write stamped v is seen iff last < v. *)
+   The history-level statement (all interleavings of update(), job runs, accesses and entity creation) is in the
+   second half of this file (proofs in proofs/VersionHistory.v): it needs in addition that the version handed to the
+   stamping primitives is newer than the last version of every job that ran before -- the model stamps with the live
+   world version, and a job's last version is always strictly below it. C07_write_detected_iff shows that this is exactly
+   what is needed: a write stamped v is seen iff last < v.  Still not proved: histories with destruction or moves. *)
 Require Import Coq.Lists.List Coq.NArith.NArith Coq.ZArith.ZArith Coq.Arith.Arith Coq.micromega.Lia.
 From Mustache Require Import Res Iter Manager Palette.
-From Mustache.proofs Require Import VersionProofs.
+From Mustache.proofs Require Import VersionProofs IterCover VersionHistory.
 Import ListNotations.
 
 (* ---- (1) check_and_set: flag, stamped positions, everything else ---- *)
@@ -194,3 +196,300 @@ Example C07_stale_stamp_missed :
   exists a', vs_set_one a_small 1 0 1 = Ok a' /\
   snd (filter_chunks 2 [1] [] 1 5 0 2 (am_cver a')) = [false; false].
 Proof. eexists. split; vm_compute; reflexivity. Qed.
+
+(* ==================================================================================================================== *)
+(* HISTORY LEVEL (proofs/VersionHistory.v).  Alphabet `vop`: VUpdate true (world.update()), VUpdate false
+   (EntityManager::update()), VGetMut, VMarkDirty, VGetConst, VHas, VRun jn parallel tasks_override workers cap (a run of
+   job number jn without callback actions), and -- the one structural change covered -- VCreate (createEntity while
+   unlocked).  The driver state `vstate` = (manager state, job list); after a run the job's j_last becomes the `last` of
+   the RJob result (ocaml/driver.ml, "runjob").  `vstep` is one operation, `vrun` a script.
+   The population: entities are created first (unlocked OCreate, with OVerChunk / OChunkFn / ODep in between:
+   `population`); inside a history entities may be created but are never destroyed or moved between archetypes.
+   NOT covered: destruction, removal (swap-remove relocation), archetype moves (assign / remove component), clear,
+   locked (deferred) structural calls, callback actions of jobs, and scripts long enough for the 32-bit world version to
+   reach its null value 2^32-1: every theorem assumes (script length + 2 < 2^32-1), under which the model's
+   (wv + 1) mod 2^32 is wv + 1. *)
+
+(* ---- (1) the invariants of every run ---- *)
+(* VInv: manager unlocked, nothing marked for destruction, buffers empty, no free slot; for every archetype (arch_ok):
+   one global stamp per component, gver_bounds, no chunk stamp and (once populated) no global stamp ahead of the world
+   version, size = population, chunk size > 0 and the chunk stamps covering all version chunks; every valid entity sits
+   where its location says (loc_ok); every job's j_last is null or STRICTLY below the world version (job_ok).
+   vframe: live entities stay live and where they are; every archetype keeps its mask, chunk size and its entities in
+   place (created ones are appended); chunk stamps never decrease; wv never decreases; jobs keep requests and masks. *)
+Theorem C07_history_invariants : forall n cis setup s0 js ops st,
+  population n cis setup s0 -> fresh_jobs js -> (N.of_nat (length ops) < WV_NULL)%N ->
+  vrun ops (s0, js) = Ok st ->
+  VInv st /\ vframe (s0, js) st /\ (wv (fst st) <= N.of_nat (length ops))%N.
+Proof. exact history_invariants. Qed.
+Print Assumptions C07_history_invariants.
+
+(* one operation: the invariant is kept, and (wv_effect) precisely:
+     VUpdate true : wv' = wv + 1, cached' = Some wv'            VUpdate false : wv' = wv, cached' = Some wv
+     VRun jn, no work : wv, cached, jobs unchanged, result RJob (old j_last) []
+     VRun jn, work    : wv' = wv + 1, cached unchanged, job jn's j_last := wv (the version its filter ran at),
+                        result RJob wv arrays
+     accesses         : wv, cached, jobs unchanged           VCreate : wv, jobs unchanged *)
+Theorem C07_step_invariant : forall st o st' out_,
+  VInv st -> (wv (fst st) + 1 < WV_NULL)%N -> vstep st o = Ok (st', out_) ->
+  VInv st' /\ vframe st st' /\ wv_effect st o st' out_.
+Proof. exact vstep_inv. Qed.
+Print Assumptions C07_step_invariant.
+
+(* creating an entity while unlocked keeps the invariant: the population phase *)
+Theorem C07_create_keeps_invariant : forall s js tid m sids via s' out_,
+  VInv (s, js) -> step s (OCreate tid m sids via) = Ok (s', out_) -> VInv (s', js) /\ wv s' = wv s.
+Proof. exact VInv_create. Qed.
+Print Assumptions C07_create_keeps_invariant.
+
+(* ... in detail: the new entity is appended to its archetype, the version chunk of its position is stamped with the world
+   version in every component, nothing else changes *)
+Theorem C07_create_effect : forall s js tid m sids via s' out_,
+  VInv (s, js) -> step s (OCreate tid m sids via) = Ok (s', out_) ->
+  VInv (s', js) /\ wv s' = wv s /\
+  exists h ai a3 idx,
+    out_ = RHandle h /\ is_valid s h = false /\ is_valid s' h = true /\
+    nth_error (archs s') ai = Some a3 /\ S idx = length (am_ents a3) /\ nth_error (am_ents a3) idx = Some h /\
+    (exists l, nth_error (locs s') (N.to_nat (fst h)) = Some l /\ l_arch l = Some ai /\ l_idx l = idx) /\
+    (forall i, i < length (am_gver a3) -> nth (length (am_gver a3) * (idx / am_chunk a3) + i) (am_cver a3) 0%N = wv s) /\
+    (forall h', is_valid s h' = true -> is_valid s' h' = true) /\
+    (forall h' l, is_valid s h' = true -> nth_error (locs s) (N.to_nat (fst h')) = Some l ->
+                  nth_error (locs s') (N.to_nat (fst h')) = Some l) /\
+    (forall k a, nth_error (archs s) k = Some a -> exists a', nth_error (archs s') k = Some a' /\ evolves_w a a' /\ (k <> ai -> a' = a)) /\
+    (forall k a', nth_error (archs s') k = Some a' -> k = ai \/ nth_error (archs s) k = Some a') /\
+    (forall a, nth_error (archs s) ai = Some a ->
+       am_ents a3 = am_ents a ++ [h] /\
+       forall p, nth p (am_cver a3) 0%N = nth p (am_cver a) 0%N \/
+                 exists i, i < length (am_gver a3) /\ p = length (am_gver a3) * (idx / am_chunk a3) + i) /\
+    (nth_error (archs s) ai = None -> idx = 0).
+Proof. exact create_effect. Qed.
+Print Assumptions C07_create_effect.
+
+(* what a run hands to the job, exactly: the entities at processed positions of matching archetypes *)
+Theorem C07_run_handed_char : forall s js jn par tov wk cap st' out_,
+  VInv (s, js) -> 0 < cap ->
+  vstep (s, js) (VRun jn par tov wk cap) = Ok (st', out_) ->
+  exists j, nth_error js jn = Some j /\
+  forall h, handed out_ h <->
+    exists ai a idx, nth_error (archs s) ai = Some a /\ jmatch j a = true /\ processed j a idx /\
+                     nth_error (am_ents a) idx = Some h.
+Proof. exact run_handed_char. Qed.
+Print Assumptions C07_run_handed_char.
+
+(* ---- (2) C07 over histories ---- *)
+(* population, then any script `pre`; in the state reached, component c of entity h (present on it) is obtained for
+   writing or marked dirty; then any script `mid` without a run of job jn -- updates, accesses, runs of other jobs,
+   including jobs that write c --; then job jn (c in its check mask, h's archetype matching its required mask) runs:
+   it is handed h.  Whether and when jn ran before, and where in the frame the modification falls, is arbitrary. *)
+Theorem C07_history : forall n cis setup s0 js pre st1 o out_t st2 mid st3 jn par tov wk cap st4 out_ h c ai idx a ci j,
+  population n cis setup s0 -> fresh_jobs js ->
+  (N.of_nat (length pre) + N.of_nat (length mid) + 2 < WV_NULL)%N ->
+  vrun pre (s0, js) = Ok st1 ->
+  is_touch o h c -> touch (fst st1) h c ai idx a ci ->
+  nth_error (snd st1) jn = Some j -> c < MASK_BITS -> mhas (j_check j) c = true ->
+  mmatch (am_mask a) (job_required_mask j) = true ->
+  vstep st1 o = Ok (st2, out_t) -> vrun mid st2 = Ok st3 -> no_run jn mid -> 0 < cap ->
+  vstep st3 (VRun jn par tov wk cap) = Ok (st4, out_) ->
+  handed out_ h.
+Proof. exact VersionHistory.C07_history. Qed.
+Print Assumptions C07_history.
+
+(* the same from any state satisfying the invariant *)
+Theorem C07_history_from_invariant : forall st1 o out_t st2 mid st3 jn par tov wk cap st4 out_ h c ai idx a ci j,
+  VInv st1 -> (wv (fst st1) + N.of_nat (length mid) + 2 < WV_NULL)%N ->
+  is_touch o h c -> touch (fst st1) h c ai idx a ci ->
+  nth_error (snd st1) jn = Some j -> c < MASK_BITS -> mhas (j_check j) c = true ->
+  mmatch (am_mask a) (job_required_mask j) = true ->
+  vstep st1 o = Ok (st2, out_t) -> vrun mid st2 = Ok st3 -> no_run jn mid -> 0 < cap ->
+  vstep st3 (VRun jn par tov wk cap) = Ok (st4, out_) ->
+  handed out_ h.
+Proof. exact C07_history_core. Qed.
+Print Assumptions C07_history_from_invariant.
+
+(* written by another job: job jn' writes c and processes entity h (at idx of archetype ai); then anything but runs of
+   jn; then jn (checking c) runs: it is handed h *)
+Theorem C07_history_written_by_job :
+  forall n cis setup s0 js pre st1 jn' p1 t1 w1 c1 out1 st2 mid st3 jn par tov wk cap st4 out_ h c ai a idx ci j j',
+  population n cis setup s0 -> fresh_jobs js ->
+  (N.of_nat (length pre) + N.of_nat (length mid) + 2 < WV_NULL)%N ->
+  vrun pre (s0, js) = Ok st1 ->
+  nth_error (snd st1) jn = Some j -> nth_error (snd st1) jn' = Some j' -> jn' <> jn ->
+  vstep st1 (VRun jn' p1 t1 w1 c1) = Ok (st2, out1) ->
+  nth_error (archs (fst st1)) ai = Some a -> nth_error (am_ents a) idx = Some h -> jmatch j' a = true -> processed j' a idx ->
+  In c (mitems (job_update_mask j')) -> c < MASK_BITS -> mhas (j_check j) c = true -> cindex (am_mask a) c = Some ci ->
+  mmatch (am_mask a) (job_required_mask j) = true ->
+  vrun mid st2 = Ok st3 -> no_run jn mid -> 0 < cap ->
+  vstep st3 (VRun jn par tov wk cap) = Ok (st4, out_) ->
+  handed out_ h.
+Proof. exact C07_history_job. Qed.
+Print Assumptions C07_history_written_by_job.
+
+(* ... stated with what jn' was handed *)
+Theorem C07_history_written_by_job_handed : forall st1 jn' p1 t1 w1 c1 out1 st2 mid st3 jn par tov wk cap st4 out_ h c j j',
+  VInv st1 -> (wv (fst st1) + N.of_nat (length mid) + 2 < WV_NULL)%N ->
+  nth_error (snd st1) jn = Some j -> nth_error (snd st1) jn' = Some j' -> jn' <> jn -> 0 < c1 ->
+  vstep st1 (VRun jn' p1 t1 w1 c1) = Ok (st2, out1) -> handed out1 h ->
+  In c (mitems (job_update_mask j')) -> mhas (j_check j) c = true ->
+  (forall ai a idx, nth_error (archs (fst st1)) ai = Some a -> nth_error (am_ents a) idx = Some h ->
+     mhas (am_mask a) c = true /\ mmatch (am_mask a) (job_required_mask j) = true) ->
+  vrun mid st2 = Ok st3 -> no_run jn mid -> 0 < cap ->
+  vstep st3 (VRun jn par tov wk cap) = Ok (st4, out_) ->
+  handed out_ h.
+Proof. exact C07_history_job_handed. Qed.
+Print Assumptions C07_history_written_by_job_handed.
+
+(* the entity is created: createEntity (unlocked) returns h; any operations but runs of jn; then jn runs, checking a
+   component c the new entity carries (its archetype matching jn's required mask): it is handed h *)
+Theorem C07_history_created : forall n cis setup s0 js pre st1 tid m sids via st2 h mid st3 jn par tov wk cap st4 out_ j c,
+  population n cis setup s0 -> fresh_jobs js ->
+  (N.of_nat (length pre) + N.of_nat (length mid) + 2 < WV_NULL)%N ->
+  vrun pre (s0, js) = Ok st1 ->
+  nth_error (snd st1) jn = Some j ->
+  vstep st1 (VCreate tid m sids via) = Ok (st2, RHandle h) ->
+  (forall ai a idx, nth_error (archs (fst st2)) ai = Some a -> nth_error (am_ents a) idx = Some h ->
+     mhas (am_mask a) c = true /\ mmatch (am_mask a) (job_required_mask j) = true) ->
+  c < MASK_BITS -> mhas (j_check j) c = true ->
+  vrun mid st2 = Ok st3 -> no_run jn mid -> 0 < cap ->
+  vstep st3 (VRun jn par tov wk cap) = Ok (st4, out_) ->
+  handed out_ h.
+Proof. exact VersionHistory.C07_history_created. Qed.
+Print Assumptions C07_history_created.
+
+(* ---- non-vacuity: a concrete history ---- *)
+(* five entities with components {0,1}, version chunks of 2; job 0 writes 0 and reads+checks 1; job 1 writes 1; job 2 only
+   reads 0 *)
+Definition get_res {A} (r : res A) (d : A) : A := match r with Ok x => x | Err _ => d end.
+Definition setup_ex : list op :=
+  [OVerChunk 2; OCreate 0 3%N [] false; OCreate 0 3%N [] false; OCreate 0 3%N [] false; OCreate 0 3%N [] false; OCreate 0 3%N [] false].
+Definition s0_ex : mst := get_res (setup_run (init 4 cis2) setup_ex) (init 0 []).
+Definition jobs_ex : list job :=
+  [ {| j_reqs := [(0, false, true); (1, true, true)]; j_check := 2%N; j_last := WV_NULL |};
+    {| j_reqs := [(1, false, true)]; j_check := 0%N; j_last := WV_NULL |};
+    {| j_reqs := [(0, true, true)]; j_check := 0%N; j_last := WV_NULL |} ].
+Definition vst_dummy : vstate := (init 0 [], []).
+Definition handles_of (o : out) : list handle :=
+  match o with RJob _ arrays => flat_map (fun v : visit => map fst (snd v)) arrays | _ => [] end.
+
+Lemma population_ex : population 4 cis2 setup_ex s0_ex /\ fresh_jobs jobs_ex.
+Proof. split; [split; [repeat constructor|vm_compute; reflexivity]|repeat constructor]. Qed.
+
+(* the invariant holds on the example's states (by the theorems above; it contains a universally quantified part) *)
+Example C07_history_invariants_example :
+  population 4 cis2 setup_ex s0_ex /\ fresh_jobs jobs_ex /\ (N.of_nat (length [VUpdate true; VRun 0 false 0 0 16]) < WV_NULL)%N /\
+  exists st, vrun [VUpdate true; VRun 0 false 0 0 16] (s0_ex, jobs_ex) = Ok st /\ wv (fst st) = 2%N /\
+             map j_last (snd st) = [1%N; WV_NULL; WV_NULL] /\ cached (fst st) = Some 1%N.
+Proof.
+  split; [apply population_ex|]. split; [apply population_ex|]. split; [vm_compute; reflexivity|].
+  eexists. split; [vm_compute; reflexivity|]. repeat split; vm_compute; reflexivity.
+Qed.
+
+(* update(); run of job 0 (everything); update()  |  write access to component 1 of entity 3  |  manager update, a run of
+   job 2, world update  |  run of job 0: it is handed the version chunk of entity 3 (entities 2 and 3) *)
+Definition pre_ex : list vop := [VUpdate true; VRun 0 false 0 0 16; VUpdate true].
+Definition mid_ex : list vop := [VUpdate false; VRun 2 true 0 3 16; VUpdate true].
+Definition st1_ex : vstate := get_res (vrun pre_ex (s0_ex, jobs_ex)) vst_dummy.
+Definition st2_ex : vstate := fst (get_res (vstep st1_ex (VGetMut (3, 0)%N 1 (Some 7%Z))) (vst_dummy, RNone)).
+Definition st3_ex : vstate := get_res (vrun mid_ex st2_ex) vst_dummy.
+
+Example C07_history_example :
+  exists out_t st4 out_ a j,
+  population 4 cis2 setup_ex s0_ex /\ fresh_jobs jobs_ex /\
+  (N.of_nat (length pre_ex) + N.of_nat (length mid_ex) + 2 < WV_NULL)%N /\
+  vrun pre_ex (s0_ex, jobs_ex) = Ok st1_ex /\
+  is_touch (VGetMut (3, 0)%N 1 (Some 7%Z)) (3, 0)%N 1 /\ touch (fst st1_ex) (3, 0)%N 1 0 3 a 1 /\
+  nth_error (snd st1_ex) 0 = Some j /\ 1 < MASK_BITS /\ mhas (j_check j) 1 = true /\
+  mmatch (am_mask a) (job_required_mask j) = true /\
+  vstep st1_ex (VGetMut (3, 0)%N 1 (Some 7%Z)) = Ok (st2_ex, out_t) /\ vrun mid_ex st2_ex = Ok st3_ex /\ no_run 0 mid_ex /\ 0 < 16 /\
+  vstep st3_ex (VRun 0 true 0 3 16) = Ok (st4, out_) /\
+  handles_of out_ = [(2, 0); (3, 0)]%N /\ j_last j = 1%N /\ wv (fst st3_ex) = 5%N.
+Proof.
+  eexists. eexists. eexists. eexists. eexists.
+  split; [apply population_ex|]. split; [apply population_ex|]. split; [vm_compute; reflexivity|].
+  split; [vm_compute; reflexivity|]. split; [left; eexists; reflexivity|].
+  split.
+  { split; [vm_compute; reflexivity|]. split; [eexists; split; [vm_compute; reflexivity|split; reflexivity]|].
+    split; [vm_compute; reflexivity|vm_compute; reflexivity]. }
+  split; [vm_compute; reflexivity|]. split; [unfold MASK_BITS; lia|]. split; [vm_compute; reflexivity|].
+  split; [vm_compute; reflexivity|]. split; [vm_compute; reflexivity|]. split; [vm_compute; reflexivity|].
+  split; [repeat constructor; discriminate|]. split; [lia|].
+  split; [vm_compute; reflexivity|]. split; [vm_compute; reflexivity|]. split; vm_compute; reflexivity.
+Qed.
+
+(* job 1 (writes component 1) runs for the first time and processes everything, in particular entity 3; later job 0
+   (checking component 1, last run at version 1) runs: it is handed entity 3 (and all others: job 1 stamped every chunk) *)
+Definition st2j_ex : vstate := fst (get_res (vstep st1_ex (VRun 1 false 0 0 16)) (vst_dummy, RNone)).
+Definition st3j_ex : vstate := get_res (vrun mid_ex st2j_ex) vst_dummy.
+
+Example C07_history_written_by_job_example :
+  exists out1 st4 out_ a j j',
+  population 4 cis2 setup_ex s0_ex /\ fresh_jobs jobs_ex /\
+  (N.of_nat (length pre_ex) + N.of_nat (length mid_ex) + 2 < WV_NULL)%N /\
+  vrun pre_ex (s0_ex, jobs_ex) = Ok st1_ex /\
+  nth_error (snd st1_ex) 0 = Some j /\ nth_error (snd st1_ex) 1 = Some j' /\ 1 <> 0 /\
+  vstep st1_ex (VRun 1 false 0 0 16) = Ok (st2j_ex, out1) /\
+  nth_error (archs (fst st1_ex)) 0 = Some a /\ nth_error (am_ents a) 3 = Some (3, 0)%N /\ jmatch j' a = true /\ processed j' a 3 /\
+  In 1 (mitems (job_update_mask j')) /\ 1 < MASK_BITS /\ mhas (j_check j) 1 = true /\ cindex (am_mask a) 1 = Some 1 /\
+  mmatch (am_mask a) (job_required_mask j) = true /\
+  vrun mid_ex st2j_ex = Ok st3j_ex /\ no_run 0 mid_ex /\ 0 < 16 /\
+  vstep st3j_ex (VRun 0 false 0 0 16) = Ok (st4, out_) /\
+  handed out1 (3, 0)%N /\ handles_of out_ = [(0, 0); (1, 0); (2, 0); (3, 0); (4, 0)]%N.
+Proof.
+  eexists. eexists. eexists. eexists. eexists. eexists.
+  split; [apply population_ex|]. split; [apply population_ex|]. split; [vm_compute; reflexivity|].
+  split; [vm_compute; reflexivity|]. split; [vm_compute; reflexivity|]. split; [vm_compute; reflexivity|]. split; [discriminate|].
+  split; [vm_compute; reflexivity|]. split; [vm_compute; reflexivity|]. split; [vm_compute; reflexivity|]. split; [vm_compute; reflexivity|].
+  split; [split; [vm_compute; lia|split; vm_compute; reflexivity]|].
+  split; [vm_compute; left; reflexivity|]. split; [unfold MASK_BITS; lia|]. split; [vm_compute; reflexivity|].
+  split; [vm_compute; reflexivity|]. split; [vm_compute; reflexivity|]. split; [vm_compute; reflexivity|].
+  split; [repeat constructor; discriminate|]. split; [lia|]. split; [vm_compute; reflexivity|]. split.
+  - vm_compute. eexists. eexists. split; [left; reflexivity|]. split; [right; right; right; left; reflexivity|reflexivity].
+  - vm_compute. reflexivity.
+Qed.
+
+(* hypotheses of the one-step theorems on the example *)
+Example C07_step_example :
+  exists st' out_, (wv (fst st1_ex) + 1 < WV_NULL)%N /\ 0 < 16 /\
+    vstep st1_ex (VRun 0 true 0 3 16) = Ok (st', out_) /\ handles_of out_ = [] /\
+    vrun pre_ex (s0_ex, jobs_ex) = Ok st1_ex.
+Proof. eexists. eexists. split; [vm_compute; reflexivity|]. split; [lia|]. split; [vm_compute; reflexivity|]. split; vm_compute; reflexivity. Qed.
+
+Lemma VInv_st1_ex : VInv st1_ex.
+Proof.
+  destruct population_ex as (Hp & Hj).
+  refine (proj1 (C07_history_invariants 4 cis2 setup_ex s0_ex jobs_ex pre_ex st1_ex Hp Hj _ _)); vm_compute; reflexivity.
+Qed.
+
+Lemma VInv_pair st : VInv st -> VInv (fst st, snd st).
+Proof. destruct st. exact (fun H => H). Qed.
+
+Example C07_create_keeps_invariant_example :
+  VInv (fst st1_ex, snd st1_ex) /\ exists s' out_, step (fst st1_ex) (OCreate 0 1%N [] false) = Ok (s', out_).
+Proof. split; [apply VInv_pair, VInv_st1_ex|]. eexists. eexists. vm_compute. reflexivity. Qed.
+
+(* after the run of job 0: a sixth entity {0,1} is created (it shares version chunk 2 with entity 4); update; job 0 runs
+   and is handed the new entity (and entity 4 of the same chunk) *)
+Definition st2c_ex : vstate := fst (get_res (vstep st1_ex (VCreate 0 3%N [] false)) (vst_dummy, RNone)).
+Definition st3c_ex : vstate := get_res (vrun [VUpdate true] st2c_ex) vst_dummy.
+
+Example C07_history_created_example :
+  exists st4 out_ j,
+  population 4 cis2 setup_ex s0_ex /\ fresh_jobs jobs_ex /\
+  (N.of_nat (length pre_ex) + N.of_nat (length [VUpdate true]) + 2 < WV_NULL)%N /\
+  vrun pre_ex (s0_ex, jobs_ex) = Ok st1_ex /\ nth_error (snd st1_ex) 0 = Some j /\
+  vstep st1_ex (VCreate 0 3%N [] false) = Ok (st2c_ex, RHandle (5, 0)%N) /\
+  (forall ai a idx, nth_error (archs (fst st2c_ex)) ai = Some a -> nth_error (am_ents a) idx = Some (5, 0)%N ->
+     mhas (am_mask a) 1 = true /\ mmatch (am_mask a) (job_required_mask j) = true) /\
+  1 < MASK_BITS /\ mhas (j_check j) 1 = true /\
+  vrun [VUpdate true] st2c_ex = Ok st3c_ex /\ no_run 0 [VUpdate true] /\ 0 < 16 /\
+  vstep st3c_ex (VRun 0 false 0 0 16) = Ok (st4, out_) /\ handles_of out_ = [(4, 0); (5, 0)]%N.
+Proof.
+  eexists. eexists. eexists.
+  split; [apply population_ex|]. split; [apply population_ex|]. split; [vm_compute; reflexivity|].
+  split; [vm_compute; reflexivity|]. split; [vm_compute; reflexivity|]. split; [vm_compute; reflexivity|].
+  split.
+  { let x := eval vm_compute in (archs (fst st2c_ex)) in replace (archs (fst st2c_ex)) with x by (vm_compute; reflexivity).
+    intros ai a idx Ha _. destruct ai as [|n]; [|destruct n; discriminate].
+    inversion Ha; subst a. split; vm_compute; reflexivity. }
+  split; [unfold MASK_BITS; lia|]. split; [vm_compute; reflexivity|]. split; [vm_compute; reflexivity|].
+  split; [repeat constructor|]. split; [lia|]. split; vm_compute; reflexivity.
+Qed.
